@@ -268,3 +268,69 @@ Definition check_c12 (fc : flavour * c12case) : N :=
   (* correspondence: with the implementation's victims as oracle, all results (Walk incl. counters) agree *)
   if all2 res_eqb (bc_res c) (model_results c) then (if p then 0 else 2)%N
   else (if p then 1 else 2)%N.
+
+(* ---------- C18 (backend part) ---------- *)
+Definition model_events (c : bcase) : list mevent :=
+  (b_run (table_hash (bc_tbl c)) (bc_cfg c) b0 (bc_ops c)).2.
+
+(* accounting from the implementation's own results: (reads answered + entries touched, writes, deleted) *)
+Fixpoint impl_acct (ops : list bop) (res : list bres) (prev : option bres) : Z * Z * Z :=
+  match ops, res with
+  | o :: ops', r :: res' =>
+    let '(a1, a2, a3) := impl_acct ops' res' (Some r) in
+    let plen := match prev with Some (RLen n) => n | _ => 0 end in
+    match o with
+    | ORead _ skip _ => ((if skip then 0 else 1) + a1, a2, a3)
+    | OLoad _ _ => (1 + a1, a2, a3)
+    | OWrite _ _ _ _ _ | OStore _ _ _ _ => (a1, 1 + a2, a3)
+    | ODelete _ => (a1, a2, (match r with RUnit => 1 | _ => 0 end) + a3)
+    | OExpireAll _ => (plen + a1, a2, a3)
+    | ODeleteAll => (a1, a2, plen + a3)
+    | _ => (a1, a2, a3)
+    end
+  | _, _ => (0, 0, 0)
+  end.
+
+Definition c18b_ok (c : bcase) : bool :=
+  match bc_metrics c with
+  | [h; m; x; w; d] =>
+      let '(a1, a2, a3) := impl_acct (bc_ops c) (bc_res c) None in
+      (h + m + x =? a1) && (w =? a2) && (d =? a3)
+  | _ => false
+  end.
+
+Definition c18b_model (c : bcase) : bool :=
+  let ev := model_events c in
+  bool_decide (bc_metrics c = [mtotal MHit ev; mtotal MMiss ev; mtotal MExpired ev; mtotal MWrite ev; mtotal MDelete ev]).
+
+Inductive c18case :=
+| C18B (fc : flavour * bcase).
+
+Definition check_c18 (c : c18case) : N :=
+  match c with
+  | C18B fc =>
+      let p := c18b_ok fc.2 in
+      if c18b_model fc.2 then (if p then 0 else 2)%N else (if p then 1 else 2)%N
+  end.
+
+(* ---------- C13 ---------- *)
+From Cache Require Import Transfer.
+
+Record c13case := C13Case {
+  c13_tbl : list (key * N);        (* target hash of every source key *)
+  c13_src : list entry;            (* Walk of the source (sorted by key) *)
+  c13_t1 : list entry;             (* Walk of the restored cache *)
+  c13_t2 : list entry;             (* Walk after relaying once more *)
+  c13_counts : list Z;             (* Dump, Restore, Dump, Restore *)
+  c13_noerr : bool;
+  c13_cfg : bcfg;
+}.
+
+Definition check_c13 (c : c13case) : N :=
+  let n := Z.of_nat (length (c13_src c)) in
+  let p := c13_noerr c
+           && bool_decide (c13_t1 c ≡ₚ c13_src c) && bool_decide (c13_t2 c ≡ₚ c13_src c)
+           && bool_decide (c13_counts c = [n; n; n; n]) in
+  let model := (map_to_list (restore (table_hash (c13_tbl c)) ∅ (dump (c13_src c))).1).*2 in
+  let m := bool_decide (model ≡ₚ c13_t1 c) in
+  if m then (if p then 0 else 2)%N else (if p then 1 else 2)%N.
